@@ -62,7 +62,7 @@ impl Env {
 
     /// One validation cycle through the real `Server::process_once`. `outcome`: 0 ok, 1 retryable failure, 2 fatal.
     pub fn cycle(&mut self, spec: &Value, outcome: u64, initial: bool) -> Result<(), bool> {
-        if outcome != 0 { routinator::verif::set_forced("validation.process", vec![outcome]); }
+        routinator::verif::set_forced("validation.process", vec![outcome]);
         let ex = slurm_of(spec);
         Server::verif_process_once(&self.config, &self.engine, &self.history, &mut self.notify, &ex, initial)
             .map_err(|e| e.should_retry())
